@@ -720,6 +720,66 @@ func (c *Ctx) registrationFns() map[*ssa.Function]int {
 	return out
 }
 
+type rewriteSite struct {
+	call *ssa.Call
+	how  string
+}
+
+// writesParamFields: does g (or a routine it passes the parameter on to) store into a field of
+// the struct its parameter idx points to? Returns a description of the first store found.
+func writesParamFields(g *ssa.Function, idx int, depth int, seen map[[2]interface{}]bool) string {
+	if depth > 4 || g == nil || len(g.Blocks) == 0 || idx >= len(g.Params) {
+		return ""
+	}
+	k := [2]interface{}{g, idx}
+	if seen[k] {
+		return ""
+	}
+	seen[k] = true
+	// values that alias the parameter: itself, phis of it, copies made through `rt := *e; e0 = &rt` are new objects
+	alias := map[ssa.Value]bool{g.Params[idx]: true}
+	for changed := true; changed; {
+		changed = false
+		eachInstr(g, func(b *ssa.BasicBlock, i int, in ssa.Instruction) {
+			if phi, ok := in.(*ssa.Phi); ok && !alias[phi] {
+				for _, e := range phi.Edges {
+					if alias[e] {
+						alias[phi] = true
+						changed = true
+					}
+				}
+			}
+		})
+	}
+	found := ""
+	eachInstr(g, func(b *ssa.BasicBlock, i int, in ssa.Instruction) {
+		if found != "" {
+			return
+		}
+		switch x := in.(type) {
+		case *ssa.Store:
+			if fa, ok := x.Addr.(*ssa.FieldAddr); ok && alias[fa.X] {
+				if fld := faField(fa); fld != nil {
+					found = fnName(g) + " stores " + fld.Name()
+				}
+			}
+		case *ssa.Call:
+			h := x.Call.StaticCallee()
+			if h == nil || fnPkgPath(h) != zygoPath {
+				return
+			}
+			for ai, a := range x.Call.Args {
+				if alias[a] {
+					if w := writesParamFields(h, ai, depth+1, seen); w != "" {
+						found = w
+					}
+				}
+			}
+		}
+	})
+	return found
+}
+
 // checkDeclarationUndone: C05-UNDO. "Every definition completed before the
 // failure is intact." A builtin that enters a type into the package-level type
 // registry and can still fail afterwards (it evaluates the field expressions
@@ -730,6 +790,22 @@ func (c *Ctx) registrationFns() map[*ssa.Function]int {
 // that registers a user type and can return an error after doing so.
 func (c *Ctx) checkDeclarationUndone(rule string) {
 	regs := c.registrationFns()
+	// methods of the registry that store into its name table
+	registryWriters := map[*ssa.Function]bool{}
+	if regT, regF := c.named("GoStructRegistryType"), c.field("GoStructRegistryType", "Registry"); regT != nil && regF != nil {
+		for _, g := range c.zygoFuncs() {
+			if g.Parent() != nil || !isMethodOf(g, regT) {
+				continue
+			}
+			eachInstr(g, func(b *ssa.BasicBlock, i int, in ssa.Instruction) {
+				if mu, ok := in.(*ssa.MapUpdate); ok {
+					if _, isF := loadOfField(mu.Map, regF); isF {
+						registryWriters[g] = true
+					}
+				}
+			})
+		}
+	}
 	regVar := c.SZygo.Var("GoStructRegistry")
 	if len(regs) == 0 || regVar == nil {
 		c.undecided(rule, "package", "registration interface", token.NoPos, "no method of the type registry that enters a user type was found")
@@ -768,6 +844,7 @@ func (c *Ctx) checkDeclarationUndone(rule string) {
 		}
 		n++
 		undone := false
+		var rewrites []rewriteSite
 		eachInstr(f, func(b *ssa.BasicBlock, i int, in ssa.Instruction) {
 			d, ok := in.(*ssa.Defer)
 			if !ok {
@@ -787,12 +864,35 @@ func (c *Ctx) checkDeclarationUndone(rule string) {
 					if _, isReg := regs[y.Call.StaticCallee()]; isReg && y.Call.StaticCallee() != nil {
 						undone = true
 					}
+					if g := y.Call.StaticCallee(); g != nil && registryWriters[g] {
+						undone = true
+					}
+					// the undo must put the previous definition back as it was: handing it to a routine
+					// that stores into the fields of the type it is given turns a builtin or host type
+					// into a script struct, for every interpreter of the process
+					if g := y.Call.StaticCallee(); g != nil && fnPkgPath(g) == zygoPath {
+						for ai, a := range y.Call.Args {
+							if !isRegisteredTypePtr(a.Type()) || ai >= len(g.Params) {
+								continue
+							}
+							if w := writesParamFields(g, ai, 0, map[[2]interface{}]bool{}); w != "" {
+								rewrites = append(rewrites, rewriteSite{y, fnName(g) + " -> " + w})
+							}
+						}
+					}
 					if bi, ok := y.Call.Value.(*ssa.Builtin); ok && bi.Name() == "delete" && len(y.Call.Args) > 0 && derivesFromGlobal(y.Call.Args[0], regVar, 0) {
 						undone = true
 					}
 				}
 			})
 		})
+		for _, rw := range rewrites {
+			c.bad(rule, fnName(f), "the undo puts the previous type back untouched", rw.call.Pos(),
+				"the deferred undo hands the previous definition of the name to a routine that stores into the fields of the type it is given ("+rw.how+"): when the name belonged to a builtin or to a type of the host program, the failed declaration turns that type into a script struct (its constructor, IsUser, hasShadowStruct are overwritten), in every interpreter of the process")
+		}
+		if undone && len(rewrites) == 0 {
+			c.ok(rule, fnName(f), "the undo puts the previous type back untouched", failAfter.Pos(), "no routine called by the undo stores into the fields of a registered type it is given")
+		}
 		c.check(undone, rule, fnName(f), "registration undone when the declaration fails", failAfter.Pos(),
 			"a deferred function puts the previous registry entry back (or removes the name) unless the declaration completed",
 			"the function enters a type into the package-level registry and can return an error afterwards, with nothing that undoes the registration: a failed (struct Name [...]) leaves an empty definition under Name, so the previous definition is destroyed (constructors of existing code fail with 'has no field'), also for other interpreters of the process")
